@@ -103,6 +103,49 @@ async fn order_case(net: &Net, rng: &mut Rng, len: usize, same_day: bool) -> Cas
     r.case("C11Case", "order", f, json!({"order": order, "pre": pre, "deleter": deleter}))
 }
 
+/// references: concurrent additions of different references to one row on two peers
+async fn concurrent_refs(net: &Net, same_ms: bool) -> Case {
+    let mut r = Runner::new(net, 2).await;
+    concurrent_refs_history(&mut r, same_ms).await;
+    let f = r.settle(T0 + DAY, 5).await;
+    r.case("C11Case", "concurrent_refs", f, json!({"same_ms": same_ms}))
+}
+/// references: add, remove, add again on one day, then the day is exchanged again (old record replayed)
+async fn ref_readd(net: &Net) -> Case {
+    let mut r = Runner::new(net, 3).await;
+    ref_readd_history(&mut r).await;
+    let f = r.settle(T0 + DAY, 5).await;
+    r.case("C11Case", "ref_readd", f, json!({}))
+}
+/// references: the same reference added on two peers (two creation dates), the later one removed
+async fn same_ref(net: &Net) -> Case {
+    let mut r = Runner::new(net, 2).await;
+    same_ref_history(&mut r).await;
+    let f = r.settle(T0 + DAY, 5).await;
+    r.case("C11Case", "same_ref_two_dates", f, json!({}))
+}
+/// generated histories with reference additions / removals / re-additions next to row writes and pulls
+async fn refs_case(net: &Net, rng: &mut Rng) -> Case {
+    let n = 2 + rng.below(2) as usize;
+    let mut r = Runner::new(net, n).await;
+    let mut t = T0 + 1000 * rng.range(1, 50);
+    for _ in 0..(3 + rng.below(2)) { advance(rng, &mut t); let x = r.next_id(); r.exec(Op::Create { p: 0, x, t }).await; }
+    for d in 1..n { r.exec(Op::Pull { dst: d, src: 0, t }).await; }
+    let concurrent = rng.chance(1, 3); // otherwise reference changes are made where the newest version of the row is
+    for _ in 0..(6 + rng.below(10)) {
+        advance(rng, &mut t);
+        let p = if concurrent { rng.below(n as u64) as usize } else { 0 };
+        match rng.below(10) {
+            0..=4 => gen_ref_step(&mut r, p, t, rng).await,
+            5 => { let known: Vec<u64> = r.last_dump(p).nodes.iter().map(|x| x.0).collect(); if !known.is_empty() { let x = *rng.pick(&known); r.exec(Op::Update { p, x, t }).await; } }
+            6 => { let x = r.next_id(); r.exec(Op::Create { p, x, t }).await; }
+            _ => { let dst = rng.below(n as u64) as usize; let src = (dst + 1 + rng.below(n as u64 - 1) as usize) % n; r.exec(Op::Pull { dst, src, t }).await; }
+        }
+    }
+    let f = r.settle(t + DAY, 6).await;
+    r.case("C11Case", if concurrent { "refs_concurrent" } else { "refs" }, f, json!({}))
+}
+
 async fn random_case(net: &Net, rng: &mut Rng) -> Case {
     let n = 2 + rng.below(3) as usize;
     let mut r = Runner::new(net, n).await;
@@ -134,6 +177,13 @@ async fn main() {
     out.push(double_delete(&net).await);
     out.push(two_versions(&net).await);
     out.push(batching(&net).await);
+    out.push(concurrent_refs(&net, false).await);
+    out.push(ref_readd(&net).await);
+    out.push(same_ref(&net).await);
+    for _ in 0..scale(10, 300) {
+        let mut r = rng.fork();
+        out.push(refs_case(&net, &mut r).await);
+    }
     for _ in 0..scale(8, 200) {
         let mut r = rng.fork();
         out.push(two_versions_case(&net, &mut r).await);
